@@ -612,3 +612,94 @@ pub fn soft_learn_reject(r: &mut Rng) -> (Universe, Prob) {
     }
     (u, Prob { reqs, cons: vec![], soft })
 }
+
+/// Shape around the exemption of directly requested solvables (D15, D19): a package `px` nobody
+/// requires in the hard problem, with an excluded and / or locked-out candidate that is requested
+/// as a soft requirement, followed - immediately or after unrelated soft requirements - by soft
+/// requirements that make the solver look at `px` (a constrains entry the accepted candidate
+/// matches, a requirement it fulfils, a dependency chain ending there) and by trivially
+/// installable ones. Order, hints, which list names the candidate and whether it has
+/// dependencies of its own are randomised.
+pub fn soft_exempt(r: &mut Rng) -> (Universe, Prob) {
+    let mut u = Universe::default();
+    let nx = 2 + r.below(3) as u32;
+    let mut xs = vec![];
+    for v in 1..=nx {
+        xs.push(u.solv("px", v));
+    }
+    let x = *r.pick(&xs);
+    let xver = u.solvs[x as usize].ver;
+    // helpers
+    u.solv("h", 1);
+    let t1 = u.solv("t", 1);
+    let h_any = u.vs("h", 0, 100);
+    // x may have a dependency of its own (then it is not the last level of the trail)
+    if r.chance(1, 3) {
+        u.solv("xd", 1);
+        let xd = u.vs("xd", 0, 100);
+        u.add_req(x, Req::Single(xd));
+    }
+    // y: no requirements, constrains px to a range that contains x
+    let y = u.solv("y", 1);
+    let around = u.vs("px", xver.saturating_sub(r.below(2) as u32).max(1), xver + 1 + r.below(2) as u32);
+    u.add_con(y, around);
+    // w: requires px in a range x fulfils
+    let w = u.solv("w", 1);
+    let wide = if r.chance(1, 2) { u.vs("px", 0, 100) } else { u.vs("px", xver, xver + 1) };
+    u.add_req(w, Req::Single(wide));
+    // z: reaches px through a dependency
+    let z = u.solv("z", 1);
+    let w_any = u.vs("w", 0, 100);
+    u.add_req(z, Req::Single(w_any));
+    // q: constrains px to a range that does NOT contain x (must be rejected while x is installed)
+    let q = u.solv("q", 1);
+    let other = u.vs("px", xver + 1, xver + 2);
+    u.add_con(q, other);
+    u.finalize();
+    let pxi = u.pkgs.iter().position(|p| p.name == "px").unwrap();
+    match r.below(3) {
+        0 => {
+            let st = u.string("excluded");
+            u.pkgs[pxi].excluded.push((x, st));
+        }
+        1 => {
+            let others: Vec<u32> = xs.iter().copied().filter(|&s| s != x).collect();
+            u.pkgs[pxi].locked = Some(*r.pick(&others));
+        }
+        _ => {
+            let st = u.string("excluded");
+            u.pkgs[pxi].excluded.push((x, st));
+            if r.chance(1, 2) {
+                let o = *r.pick(&xs);
+                let st2 = u.string("not for this platform");
+                if o != x {
+                    u.pkgs[pxi].excluded.push((o, st2));
+                }
+            }
+        }
+    }
+    match r.below(4) {
+        0 => {
+            for p in &mut u.pkgs {
+                p.hint = Hint::All;
+            }
+        }
+        1 => {
+            for p in &mut u.pkgs {
+                p.hint = if r.chance(1, 2) { Hint::All } else { Hint::None };
+            }
+        }
+        _ => {}
+    }
+    // soft list: x first (mostly), then a random selection of the others in random order
+    let mut rest = vec![y, w, z, t1, q];
+    r.shuffle(&mut rest);
+    rest.truncate(1 + r.below(4) as usize);
+    let mut soft = vec![x];
+    soft.extend(rest);
+    if r.chance(1, 6) {
+        r.shuffle(&mut soft);
+    }
+    let reqs = if r.chance(2, 3) { vec![Req::Single(h_any)] } else { vec![] };
+    (u, Prob { reqs, cons: vec![], soft })
+}
